@@ -107,7 +107,7 @@ func casesForEntry(e *gen.Entry, o CaseOpts, seedIdx int) []Case {
 				}
 			}
 			// attribute name / equals sign being typed
-			for _, s := range []string{"", "a", "attr", "attr ", "attr =", "attr = ", "attr =\n", "blk {\n  attr = \n}\n", "blk {\n  attr =\n", "blk {\n  \n}\n"} {
+			for _, s := range []string{"", "a", "attr", "attr ", "attr =", "attr = ", "attr =fn(", "attr =[fn(1, ]", "attr =\"x", "  attr = true\n", "attr =\n", "blk {\n  attr = \n}\n", "blk {\n  attr =\n", "blk {\n  \n}\n"} {
 				out = append(out, Case{Entry: e, File: "main.tf", Text: s, Family: "prefix", PosTo: -1})
 			}
 			if o.Seqs {
